@@ -1,0 +1,53 @@
+// Copyright 2023-2024 The Connect Authors
+//
+// Licensed under the Apache License, Version 2.0 (the "License");
+// you may not use this file except in compliance with the License.
+// You may obtain a copy of the License at
+//
+//      http://www.apache.org/licenses/LICENSE-2.0
+//
+// Unless required by applicable law or agreed to in writing, software
+// distributed under the License is distributed on an "AS IS" BASIS,
+// WITHOUT WARRANTIES OR CONDITIONS OF ANY KIND, either express or implied.
+// See the License for the specific language governing permissions and
+// limitations under the License.
+
+package compression
+
+import (
+	"compress/gzip"
+	"io"
+)
+
+// gzipDecompressor is a thin wrapper around a gzip Reader. A zero gzip.Reader
+// has no underlying decompressor until a Reset succeeds, so its Read and
+// Close panic before that (for example Close right after a Reset that failed
+// on a malformed header). The wrapper therefore only creates the Reader once
+// a source with a valid header is seen.
+type gzipDecompressor struct {
+	reader *gzip.Reader
+}
+
+func (c *gzipDecompressor) Read(bytes []byte) (int, error) {
+	if c.reader == nil {
+		return 0, io.EOF
+	}
+	return c.reader.Read(bytes)
+}
+func (c *gzipDecompressor) Reset(rdr io.Reader) error {
+	if c.reader == nil {
+		reader, err := gzip.NewReader(rdr)
+		if err != nil {
+			return err
+		}
+		c.reader = reader
+		return nil
+	}
+	return c.reader.Reset(rdr)
+}
+func (c *gzipDecompressor) Close() error {
+	if c.reader == nil {
+		return nil
+	}
+	return c.reader.Close()
+}
